@@ -747,3 +747,19 @@ Fixpoint counted (fs : list (fheader * N)) : list N :=
   | [] => []
   | (h, cl) :: r => match qualifying h cl with Some k => k :: counted r | None => counted r end
   end.
+
+(* ------------------------------------------------------------------ *)
+(** * A backend stream reset by the proxy (malformed trailers, DATA beyond the
+      content-length, ...): what the client is given
+
+    [reset_stream] on a backend connection aborts the response buffer, then -
+    before the repair - asked the frontend what to do with a stream whose
+    response buffer is in error: [end_stream_decision] has no "part of the
+    response is already out" case there and answers "default 502" as soon as
+    the request was consumed.  [guard] = the repair: once bytes of the
+    response went to the client, only the abort remains. *)
+Inductive reset_outcome := RAbort | RDefault502 | RRetry.
+
+Definition on_backend_reset (guard response_started request_consumed : bool) : reset_outcome :=
+  if guard && response_started then RAbort
+  else if request_consumed then RDefault502 else RRetry.
